@@ -194,7 +194,7 @@ Lemma feed_scenario_line m f line alias name :
   exists m', feed (ROk m) line = ROk m' /\ m_st m' = StScenario /\
              at_feature_scenario m' (with_items f (FScen (new_scenario m alias name) :: f_items f)) (new_scenario m alias name) (f_items f) /\
              m_line m' = S (m_line m) /\ m_kw m' = m_kw m /\ m_tags m' = [] /\ m_lang m' = m_lang m /\ m_table m' = m_table m /\
-             m_in_examples m' = m_in_examples m.
+             m_in_examples m' = m_in_examples m /\ m_lines m' = m_lines m.
 Proof.
   intros C F ST [ND NB NC NT NS NR SC].
   set (m1 := upd_line m (S (m_line m))).
@@ -204,7 +204,7 @@ Proof.
      m_st mx = StScenario /\
      at_feature_scenario mx (with_items f (FScen (new_scenario m alias name) :: f_items f)) (new_scenario m alias name) (f_items f) /\
      m_line mx = S (m_line m) /\ m_kw mx = m_kw m /\ m_tags mx = [] /\ m_lang mx = m_lang m /\ m_table mx = m_table m0 /\
-     m_in_examples mx = m_in_examples m0).
+     m_in_examples mx = m_in_examples m0 /\ m_lines mx = m_lines m0).
   { intros m0 C0 F0 L0 K0 T0 G0 mx. unfold mx, build_scenario, add_item. rewrite C0, F0.
     unfold at_feature_scenario, new_scenario, with_items. cbn. rewrite L0, T0. repeat split; assumption. }
   rewrite (feed_nonblank m line NB). fold m1. rewrite (action_dispatch m1 line NB NC). cbn [m1 upd_line m_st].
